@@ -10,7 +10,11 @@ Next == i < Len(Cases) /\ i' = i + 1 /\ UNCHANGED tvars
 Clause(c) == IF c.raised # "" THEN "raised"
              ELSE IF ~IsTree(c.edges) THEN "input_not_a_tree"
              ELSE IF c.ord # c.ord2 THEN "scorer_order_differs"
-             ELSE ValidOrderClause(c.edges, c.ord)
+             ELSE IF ValidOrderClause(c.edges, c.ord) # "ok" THEN ValidOrderClause(c.edges, c.ord)
+             \* the order as it is used: one animal with an accepted match on every edge is grouped completely
+             \* (records from the repository's own tests carry no grouping run: nn = 0)
+             ELSE IF "nn" \in DOMAIN c /\ c.nn > 0 /\ c.grouped # c.nn THEN "body_part_left_ungrouped"
+             ELSE "ok"
 Check == i >= 1 => VGive(Cases[i].id, Clause(Cases[i]))
 Report == VReport
 =============================================================================
